@@ -74,6 +74,10 @@ type Scenario struct {
 	MaxRuns int            `json:"maxruns,omitempty"`
 	Bulk    bool           `json:"bulk,omitempty"` // log one write event for a run of equal writes
 	Mode    string         `json:"mode,omitempty"` // "listen": Accept / Expect / Listener.Close scenarios (listen.go)
+	// listener scenarios: a second pair of served sessions c (accepting, shares the Handler of b) and d (its peer);
+	// Listen2: the listener of c exists from the start (otherwise a "listen" op creates it)
+	Pair2   bool `json:"pair2,omitempty"`
+	Listen2 bool `json:"listen2,omitempty"`
 }
 
 const sid = "s"
@@ -84,8 +88,13 @@ const sid = "s"
 const hangAfter = 45 * time.Second
 
 func peerOf(e string) string {
-	if e == "a" {
+	switch e {
+	case "a":
 		return "b"
+	case "c":
+		return "d"
+	case "d":
+		return "c"
 	}
 	return "a"
 }
@@ -184,7 +193,9 @@ type World struct {
 	sess   map[string]*xmpp.Session
 	h      map[string]*ibb.Handler
 	ln     *ibb.Listener
-	ic     map[string]*ibb.Conn // the stream's Conn at each endpoint
+	ends   []string                 // endpoints: a, b (and c, d: Scenario.Pair2)
+	lns    map[string]*ibb.Listener // listener scenarios: the listener of session b / c (guarded by smu)
+	ic     map[string]*ibb.Conn     // the stream's Conn at each endpoint
 	ref    map[string]*refStream
 	tap    map[string]*tapState // keyed by destination endpoint
 	sched  *vt.Sched
@@ -210,7 +221,11 @@ func newWorld(sc Scenario, seed int64) *World {
 	w := &World{sc: sc, lg: &vt.Log{}, conn: map[string]*vt.Conn{}, sess: map[string]*xmpp.Session{}, h: map[string]*ibb.Handler{},
 		ic: map[string]*ibb.Conn{}, ref: map[string]*refStream{}, tap: map[string]*tapState{"a": {}, "b": {}}, starve: map[string]bool{},
 		wpos: map[string]int{}, wireSeq: map[string]int{}, wirePos: map[string]int{}, cur: map[string]string{}, fin: map[string]bool{},
-		pe: map[string]string{"sa": "a", "sb": "b"}}
+		pe: map[string]string{"sa": "a", "sb": "b", "sc": "c", "sd": "d"}, ends: []string{"a", "b"}, lns: map[string]*ibb.Listener{}}
+	if sc.Pair2 {
+		w.ends = []string{"a", "b", "c", "d"}
+		w.tap["c"], w.tap["d"] = &tapState{}, &tapState{}
+	}
 	w.icond = sync.NewCond(&w.imu)
 	tot := map[string]int{"a": 0, "b": 0}
 	for _, p := range sc.Procs {
@@ -227,13 +242,13 @@ func newWorld(sc Scenario, seed int64) *World {
 	}
 	w.ref["a"] = newRef(seed*2+11, tot["a"]+64)
 	w.ref["b"] = newRef(seed*2+12, tot["b"]+64)
-	for _, e := range []string{"a", "b"} {
+	for _, e := range w.ends {
 		e := e
 		c := vt.NewConn()
 		w.conn[e] = c
 		c.FeedString(hdr(peerOf(e)+"@example.net", e+"@example.net"))
 	}
-	for _, e := range []string{"a", "b"} {
+	for _, e := range w.ends {
 		e := e
 		w.conn[e].React = func(p []byte) { w.forward(peerOf(e), p) }
 		w.conn[e].Starve = func() {
@@ -249,9 +264,9 @@ func newWorld(sc Scenario, seed int64) *World {
 }
 
 func (w *World) start() {
-	for _, e := range []string{"a", "b"} {
+	for _, e := range w.ends {
 		st := xmpp.SessionState(0)
-		if e == "b" {
+		if e == "b" || e == "c" {
 			st = xmpp.Received
 		}
 		s, err := xmpp.NewSession(context.Background(), jid.MustParse("example.net"), jid.MustParse(e+"@example.net"), w.conn[e], st, nopNeg(stanza.NSClient))
@@ -260,9 +275,16 @@ func (w *World) start() {
 		}
 		w.sess[e] = s
 		w.h[e] = &ibb.Handler{}
+		if e == "c" {
+			w.h[e] = w.h["b"] // the sessions of the accepting application share one Handler
+		}
 	}
 	if w.sc.Listen {
 		w.ln = w.h["b"].Listen(w.sess["b"])
+		w.lns["b"] = w.ln
+	}
+	if w.sc.Pair2 && w.sc.Listen2 {
+		w.lns["c"] = w.h["b"].Listen(w.sess["c"])
 	}
 }
 
@@ -287,9 +309,9 @@ func (w *World) handler(e string) xmpp.Handler {
 			}
 			w.lg.Add(ev)
 		}
-		if w.lsn != nil && e == "b" {
-			w.lsn.setServing(true)
-			defer w.lsn.setServing(false)
+		if w.lsn != nil && (e == "b" || e == "c") {
+			w.lsn.setServing(e, true)
+			defer w.lsn.setServing(e, false)
 		}
 		defer func() {
 			if p := recover(); p != nil {
@@ -378,7 +400,7 @@ func (w *World) emit(to string, ts *tapState, inj bool) {
 		if typ == "error" {
 			res = "error"
 		}
-		ev := vt.Ev{"ev": "reply", "to": to, "id": id, "carrier": ts.name, "res": res, "cond": ts.cond}
+		ev := vt.Ev{"ev": "reply", "to": to, "from": peerOf(to), "id": id, "carrier": ts.name, "res": res, "cond": ts.cond}
 		if w.lsn != nil {
 			w.lsn.decorate(ev, "")
 		}
@@ -519,11 +541,28 @@ func (w *World) setOver() {
 	w.imu.Unlock()
 }
 
+// allStarved: every serve loop waits on an empty transport (imu held)
+func (w *World) allStarved() bool {
+	for _, e := range w.ends {
+		if !w.starve[e] {
+			return false
+		}
+	}
+	return true
+}
+
+func (w *World) getLn(e string) *ibb.Listener { w.smu.Lock(); defer w.smu.Unlock(); return w.lns[e] }
+func (w *World) setLn(e string, l *ibb.Listener) {
+	w.smu.Lock()
+	w.lns[e] = l
+	w.smu.Unlock()
+}
+
 func (w *World) waitIdle() bool {
 	done := make(chan struct{})
 	go func() {
 		w.imu.Lock()
-		for !(w.starve["a"] && w.starve["b"]) {
+		for !w.allStarved() {
 			w.icond.Wait()
 		}
 		w.imu.Unlock()
@@ -536,7 +575,9 @@ func (w *World) waitIdle() bool {
 		w.hang = true
 		// let the waiter go
 		w.imu.Lock()
-		w.starve["a"], w.starve["b"] = true, true
+		for _, e := range w.ends {
+			w.starve[e] = true
+		}
 		w.icond.Broadcast()
 		w.imu.Unlock()
 		return false
@@ -726,7 +767,14 @@ func resetOf(sc Scenario) vt.Ev {
 			mb[e] = bs // documented by SetReadBuffer
 		}
 	}
-	return vt.Ev{"bs": bs, "carrier": sc.Carrier, "maxbuf": mb, "listen": sc.Listen, "mode": sc.Mode}
+	lst := map[string]string{"b": "none", "c": "none"}
+	if sc.Listen {
+		lst["b"] = "open"
+	}
+	if sc.Pair2 && sc.Listen2 {
+		lst["c"] = "open"
+	}
+	return vt.Ev{"bs": bs, "carrier": sc.Carrier, "maxbuf": mb, "listen": sc.Listen, "mode": sc.Mode, "lst": lst}
 }
 
 // runSeq: one goroutine performs the ops in program order and waits for both serve loops
